@@ -138,6 +138,10 @@ func searchIndex(p *binary.BinaryProtocol, idx int, elementWireType proto.WireTy
 			}
 			cnt++
 		}
+		if p.Read >= start+length {
+			// the list ends here: there is no element idx
+			return p.Read, errNotFound
+		}
 		result = p.Read
 	} else {
 		// normal Type : [tag][(length)][value][tag][(length)][value][tag][(length)][value]....
@@ -154,12 +158,16 @@ func searchIndex(p *binary.BinaryProtocol, idx int, elementWireType proto.WireTy
 					return 0, err
 				}
 				if elementFieldNumber != fieldNumber {
-					break
+					// the list ends here: there is no element cnt
+					return p.Read, errNotFound
 				}
 				if cnt < idx {
 					p.Read += n
 				}
 				result = p.Read + n
+			} else {
+				// the list ends with the buffer: there is no element cnt
+				return p.Read, errNotFound
 			}
 		}
 
